@@ -492,6 +492,18 @@ def run_server(ctx, reps):
                         if otype == 2 and got.get("len") != nbytes * 8:
                             ctx.report("c06:derived-length-attribute", "derived key reports length %s for %d bytes"
                                        % (got.get("len"), nbytes), {"kind": "server", "item": it, "key": key.hex()})
+            # a non-positive requested length cannot be honoured: the request must be refused
+            for bits in (0, -8, -64):
+                for otype in (2, 7):
+                    tmpl = {"tnames": 0, "attrs": [attr("Cryptographic Length", {"k": "int", "v": bits})] +
+                            ([attr("Cryptographic Algorithm", {"k": "enum", "v": 3})] if otype == 2 else [])}
+                    res = req([{"op": "deriveKey", "bid": None, "otype": otype, "uids": [base], "tmpl": tmpl, "method": 2,
+                                "ddata_hex": "", "cp": {"hash": 6}}])[0]
+                    count += 1
+                    if res.get("status") == "ok":
+                        ctx.report("c06:derived-length:nonpositive",
+                                   "DeriveKey with a requested length of %d bits succeeded (object type %d)" % (bits, otype),
+                                   {"kind": "server", "bits": bits, "otype": otype})
             # Create: fresh material of the requested length
             seen = set()
             for bits in (128, 192, 256):
